@@ -3,37 +3,56 @@
 From T38 Require Import Base.Bytes Base.Utf8 Model.Json Model.JsonMode Proofs.JsonProofs.
 Open Scope N_scope.
 
-Lemma serve_packet_spec dflt parsed msgs : forall c,
-  serve_packet dflt parsed c msgs =
-  (match msgs with [] => c | _ => Some (last (spec_modes (initial_mode dflt parsed c) msgs) OJson) end,
-   spec_modes (initial_mode dflt parsed c) msgs).
+From T38 Require Gen.Templates.
+
+(* the tie to the source: handleInputCommand's HELLO branch restores msg.OutputType *)
+Lemma hello_restores_in_source : Gen.Templates.hello_restores_output = true.
+Proof. reflexivity. Qed.
+
+(* the mode the connection is left in after a list of commands *)
+Fixpoint final_mode (cur : omode) (msgs : list pcmd) : omode :=
+  match msgs with
+  | [] => cur
+  | POutput t :: r => final_mode t r
+  | _ :: r => final_mode cur r
+  end.
+
+Lemma serve_packet_r_spec dflt parsed msgs : forall c,
+  serve_packet_r true dflt parsed c msgs =
+  (match msgs with [] => c | _ => Some (final_mode (initial_mode dflt parsed c) msgs) end,
+   spec_modes dflt parsed (initial_mode dflt parsed c) msgs).
 Proof.
   induction msgs as [|x r IH]; intros c; [reflexivity|].
-  cbn [serve_packet]. unfold serve_msg.
+  cbn [serve_packet_r]. unfold serve_msg_r.
   fold (initial_mode dflt parsed c).
   set (m := initial_mode dflt parsed c).
-  destruct x as [t|].
-  - rewrite IH. cbn [initial_mode spec_modes]. destruct r as [|y r']; [reflexivity|].
-    f_equal. f_equal. cbn [spec_modes]. destruct y; reflexivity.
-  - rewrite IH. cbn [initial_mode spec_modes]. destruct r as [|y r']; [reflexivity|].
-    f_equal. f_equal. cbn [spec_modes]. destruct y; reflexivity.
+  destruct x as [t|d|].
+  - rewrite IH. cbn [initial_mode spec_modes final_mode]. destruct r; reflexivity.
+  - cbn [spec_modes final_mode].
+    destruct (hello_resp dflt parsed m d); rewrite IH; cbn [initial_mode]; destruct r; reflexivity.
+  - rewrite IH. cbn [initial_mode spec_modes final_mode]. destruct r; reflexivity.
 Qed.
 
-Lemma spec_modes_app cur a b :
-  spec_modes cur (a ++ b) =
-  spec_modes cur a ++ spec_modes (match a with [] => cur | _ => last (spec_modes cur a) OJson end) b.
+Lemma spec_modes_app dflt parsed cur a b :
+  spec_modes dflt parsed cur (a ++ b) =
+  spec_modes dflt parsed cur a ++ spec_modes dflt parsed (final_mode cur a) b.
 Proof.
   revert cur; induction a as [|x r IH]; intros cur; [reflexivity|].
-  destruct x as [t|]; cbn [app spec_modes]; rewrite IH; f_equal;
-    (destruct r as [|y r']; [reflexivity|]); f_equal; cbn [spec_modes]; destruct y; reflexivity.
+  destruct x as [t|d|]; cbn [app spec_modes final_mode]; rewrite IH; reflexivity.
+Qed.
+
+Lemma serve_r_spec dflt parsed packets : forall c,
+  serve_r true dflt parsed c packets = spec_modes dflt parsed (initial_mode dflt parsed c) (concat packets).
+Proof.
+  induction packets as [|p ps IH]; intros c; [reflexivity|].
+  cbn [serve_r concat]. rewrite serve_packet_r_spec, IH, spec_modes_app.
+  f_equal. destruct p as [|x r]; reflexivity.
 Qed.
 
 Theorem serve_spec_proof : forall dflt parsed packets c,
-  serve dflt parsed c packets = spec_modes (initial_mode dflt parsed c) (concat packets).
+  serve dflt parsed c packets = spec_modes dflt parsed (initial_mode dflt parsed c) (concat packets).
 Proof.
-  intros dflt parsed packets. induction packets as [|p ps IH]; intros c; [reflexivity|].
-  cbn [serve concat]. rewrite serve_packet_spec, IH, spec_modes_app.
-  f_equal. destruct p as [|x r]; reflexivity.
+  intros. unfold serve. rewrite hello_restores_in_source. apply serve_r_spec.
 Qed.
 
 Theorem serve_packet_independent_proof : forall dflt parsed c ps qs,
@@ -48,6 +67,23 @@ Proof. intros. rewrite !serve_spec_proof. split; reflexivity. Qed.
 Lemma hoisted_refuted :
   serve_hoisted None OResp None [[POutput OJson; POther]; [POther]] <> serve None OResp None [[POutput OJson; POther]; [POther]].
 Proof. vm_compute. discriminate. Qed.
+
+(* HELLO 3 on a server started with -o json: answered in RESP, and the next command is answered in
+   JSON again, in the same packet or in the next one *)
+Lemma hello_leaves_mode_proof :
+  serve (Some OJson) OResp None [[PHello true; POther]] = [OResp; OJson] /\
+  serve (Some OJson) OResp None [[PHello true]; [POther]] = [OResp; OJson] /\
+  serve (Some OJson) OResp None [[PHello false; POther]] = [OJson; OJson] /\
+  serve None OResp None [[POutput OJson; PHello true; POther]] = [OJson; OJson; OJson].
+Proof. rewrite !serve_spec_proof. repeat split. Qed.
+
+(* without the restore (seeded change C17/11) the RESP setting of the one HELLO reply sticks: netServe
+   writes it back into client.outputType and every later reply of the connection is RESP *)
+Lemma hello_no_restore_refuted :
+  serve_r false (Some OJson) OResp None [[PHello true]; [POther]] <>
+  spec_modes (Some OJson) OResp (initial_mode (Some OJson) OResp None) (concat [[PHello true]; [POther]]) /\
+  serve_r false (Some OJson) OResp None [[PHello true]; [POther]] = [OResp; OResp].
+Proof. split; [vm_compute; discriminate | reflexivity]. Qed.
 
 (* ---------- pub/sub ---------- *)
 
